@@ -199,6 +199,24 @@ impl<C: Ciphersuite> Lab<C> for ConcLab<C> {
         let y = <<C::Group as Group>::Field as Field>::little_endian_serialize(&b);
         x.as_ref().iter().rev().cmp(y.as_ref().iter().rev())
     }
+    fn watch_serialization(&mut self, _on: bool) {}
+    fn leaked(&mut self, rendered: &str, secrets: &[Scalar<C>]) -> bool {
+        let text = rendered.to_lowercase();
+        for s in secrets {
+            let b = scen::lab::ser_s::<C>(s);
+            if b.iter().all(|x| *x == 0) {
+                continue;
+            }
+            let hex: String = b.iter().map(|x| format!("{x:02x}")).collect();
+            let mut rev = b.clone();
+            rev.reverse();
+            let hex_rev: String = rev.iter().map(|x| format!("{x:02x}")).collect();
+            if text.contains(&hex) || text.contains(&hex_rev) {
+                return true;
+            }
+        }
+        false
+    }
     fn draw_bytes(&mut self, k: usize) -> Option<Vec<u8>> {
         self.rng.bytes.get(k).cloned()
     }
